@@ -134,6 +134,13 @@ impl TypedProgram {
                     if let Literal::NumUnsigned(size, UnsignedNumType::Usize) = literal {
                         const_sizes.insert(identifier, *size as usize);
                     }
+                } else {
+                    // a constant of the wrong type must be reported before the const definitions are
+                    // resolved: the resolution looks the supplied values up by their expected type
+                    errs.push(CompilerError::InvalidLiteralType(
+                        literal.clone(),
+                        ty.clone(),
+                    ));
                 }
             }
         }
